@@ -151,6 +151,35 @@ impl Monitor for C15 {
                 }
             }
         }
+        // (a') one construct repeated many times (nested, chained, as argument list): both evaluators
+        // must still answer, and agree
+        for (fam, k, s) in repetitions(Ev::I64, rep_cap(&ctx.config)) {
+            if ["avg", "med", "gcd", "lcm"].iter().any(|f| s.contains(f)) {
+                continue;
+            }
+            if ctx.mine() {
+                let case = Case::pair(Ev::I64, "i64-in-number", &s, Val::I(0), &s, Val::NI(0)).with_extra(&format!("{} x{}", fam, k));
+                ctx.check(&case, &|c, st| {
+                    let v = self.judge(c, st);
+                    if let Verdict::Pass { .. } = v {
+                        st.inc("agree.repetitions");
+                    }
+                    v
+                });
+            }
+        }
+        for (fam, k, s) in repetitions(Ev::F64, rep_cap(&ctx.config)) {
+            if ctx.mine() {
+                let case = Case::pair(Ev::F64, "f64-vs-number", &s, Val::F(0.0), &s, Val::NI(0)).with_extra(&format!("{} x{}", fam, k));
+                ctx.check(&case, &|c, st| {
+                    let v = self.judge(c, st);
+                    if let Verdict::Pass { .. } = v {
+                        st.inc("agree.repetitions");
+                    }
+                    v
+                });
+            }
+        }
         // (b) shared f64 grammar: eval_number's numeric value equals eval_f64's result
         {
             let leaf = |rng: &mut Rng| -> Ast {
